@@ -386,3 +386,53 @@ def check_column_order_free(ctx, rule: str):
         ctx.ob(rule, construct(fi, "the column order of X is read"), False, loc(fi, n), "permuting the columns of X can change the selection")
     if not bad:
         ctx.ob(rule, "no selector function reads X.columns", True, "")
+
+
+def check_colsample_cover(ctx, rule: str):
+    """With colsample < 1 the feature samples cover every feature: the last sample is open-ended."""
+    fs = ctx.repo.find_function(f"{F_SEL}::BaseSelector.select")
+    adds = [n for n in walk_no_nested(fs.node) if isinstance(n, ast.AugAssign) and unparse(n.target) == "feature_samples"]
+    ok = False
+    for a in adds:
+        for sub in ast.walk(a.value):
+            if isinstance(sub, ast.Subscript) and unparse(sub.value) == "features" and isinstance(sub.slice, ast.Slice) and sub.slice.upper is None and sub.slice.lower is not None:
+                ok = True
+    defs = single_defs(fs.node)
+    fsamp = [n for n in walk_no_nested(fs.node) if isinstance(n, ast.Assign) and unparse(n.targets[0]) == "feature_samples"]
+    first_ok = len(fsamp) == 1 and isinstance(fsamp[0].value, ast.ListComp) and "range(int(1 / self.colsample) - 1)" in unparse(fsamp[0].value) and "features[chunks * i:chunks * (i + 1)]" in unparse(fsamp[0].value)
+    last_ok = any("features[chunks * (int(1 / self.colsample) - 1):]" in unparse(a.value) for a in adds)
+    ctx.ob(rule, construct(fs, "colsample: the k-1 equal chunks plus one open-ended last chunk cover every feature exactly once"), ok and first_ok and last_ok, loc(fs),
+           "" if (ok and first_ok and last_ok) else "features beyond the last full chunk are never measured: a feature can be left out for no valid reason")
+    loops = [n for n in walk_no_nested(fs.node) if isinstance(n, ast.For) and unparse(n.iter) == "feature_samples"]
+    ok2 = len(loops) == 1 and any(isinstance(c, ast.Call) and call_name(c) == "_select_features" and unparse(c.args[2]) == unparse(loops[0].target) for c in ast.walk(loops[0]))
+    fin = [c for c in calls(fs, "_select_features") if unparse(c.args[2]) == "best_features"]
+    ctx.ob(rule, construct(fs, "every sample is ranked, then the union of the winners is ranked once more"), ok2 and len(fin) == 1, loc(fs))
+
+
+UNIT_DEPENDENT = {"isclose", "allclose", "round", "around", "rint", "floor", "ceil", "trunc"}
+
+
+def check_measure_encodings(ctx, rule: str):
+    """Exported measures treat the feature in a way that commutes with negation and positive
+    rescaling: no absolute tolerance / rounding on raw values, no one-sided order statistic."""
+    from ..flow import expr_tainted, tainted_names
+
+    repo = ctx.repo
+    for fi in exported(repo, MEASURES_INIT, "_measure"):
+        if fi.name == "make_measure":
+            continue
+        tainted = tainted_names(fi.node, lambda n: False, seeds={"x"})
+        bad = []
+        for n in walk_no_nested(fi.node):
+            if isinstance(n, ast.Call) and call_name(n) in UNIT_DEPENDENT:
+                args = list(n.args) + [k.value for k in n.keywords] + ([n.func.value] if isinstance(n.func, ast.Attribute) else [])
+                if any(expr_tainted(a, tainted, lambda z: False) for a in args):
+                    bad.append((n, "an absolute tolerance / rounding depends on the unit of the feature"))
+            if isinstance(n, ast.Call) and call_name(n) in ("quantile", "percentile", "nanquantile"):
+                m = kwarg(n, "interpolation") or kwarg(n, "method")
+                if m is not None and const_value(m) in ("lower", "higher"):
+                    bad.append((n, "'lower' on x is 'higher' on -x: the statistic is not symmetric under negation"))
+        for n, why in bad[:2]:
+            ctx.ob(rule, construct(fi, f"`{short(n, 60)}` is not invariant under re-encoding"), False, loc(fi, n), why)
+        if not bad:
+            ctx.ob(rule, construct(fi, "no unit-dependent tolerance / rounding and no one-sided order statistic on the feature"), True, loc(fi))
